@@ -128,6 +128,21 @@ class World:
             # additional documented inputs: a velocity / Lorentz factor field
             if k == "tracer":
                 d["tracer"] = 0.5 + 0.25 * np.sin(fd.x + 2 * fd.y - fd.z)
+            if k == "weylpsi":
+                # the five Weyl scalars supplied directly (as the suite
+                # supplies Weyl_Psi4r), Psi4 exactly zero on half of the grid
+                w = [(0.3 + j) * np.cos(fd.x + 0.5 * j * fd.y)
+                     + 1j * np.sin(fd.z - 0.25 * j * fd.x) * 0.2
+                     for j in range(5)]
+                w[4] = np.where(fd.x < np.median(fd.x), 0.0, w[4])
+                w[1] = np.where(fd.y < np.median(fd.y), 0.0, w[1])
+                d["Weyl_Psi"] = w
+            if k == "gdown4x":
+                # a 4-metric supplied as input next to the 3+1 variables and
+                # not equal to the one they imply (values are compared with a
+                # fresh instance holding the same inputs, so the inputs need
+                # not be consistent with each other)
+                d["gdown4"] = 1.21 * ex["g"]
             if k == "momentum":
                 # momentum-constraint components as simulation output
                 # (ML_BSSN M1..M3 read from Einstein Toolkit files)
@@ -172,7 +187,9 @@ class World:
         rel = aurel.AurelCore(fd, **self.kwargs(cache))
         if readonly:
             for v in data.values():
-                v.setflags(write=False)
+                for _, leaf in leaves(v):
+                    if isinstance(leaf, np.ndarray):
+                        leaf.setflags(write=False)
         if freeze == "load_data":
             sim = {k: [None, v] for k, v in data.items()}
             rel.load_data(sim, 1)
@@ -411,7 +428,16 @@ def strategies():
                                  + (["tracer"] if draw(st.booleans())
                                     else [])
                                  + (["momentum"]
-                                    if draw(st.integers(0, 5)) == 0 else [])),
+                                    if draw(st.integers(0, 5)) == 0 else [])
+                                 # (inconsistent inputs: only where the
+                                 # oracle does not compare values between
+                                 # algebraically equivalent branches)
+                                 + (["gdown4x"] if loose_flags
+                                    and draw(st.integers(0, 7)) == 0
+                                    else [])
+                                 + (["weylpsi"] if loose_flags
+                                    and draw(st.integers(0, 7)) == 0
+                                    else [])),
                    freeze=draw(st.sampled_from(["freeze_data", "load_data",
                                                 "hand_then_load_data"])))
         if draw(st.integers(0, 7)) == 0:
@@ -535,7 +561,11 @@ class Run:
         self.cleanups_removed = 0
         self.tracked = {}     # id -> (array, digest, label)
         for k, v in self.inputs.items():
-            self.track(v, f"input:{k}")
+            if isinstance(v, np.ndarray):
+                self.track(v, f"input:{k}")
+            else:
+                for pth, leaf in leaves(v):
+                    self.track(leaf, f"input:{k}{pth}")
         # the grid object is user-supplied too (and shared between instances)
         for k, v in sorted(vars(self.fd).items()):
             if isinstance(v, np.ndarray):
